@@ -129,7 +129,7 @@ SENSOR_ORDERS = ["rev", "aff:7:3", "rot:5", "aff:13:1", "aff:5:2", "aff:3:0", "a
 # geom2 in others (mixed directions inside one sensor).  On the unchanged tree the sorted reduce modes (mindist/maxforce) then report
 # forces with the sign of ANOTHER slot: `_contact_sort` permutes sensor_contact_matchid but not sensor_contact_direction, which stays in
 # the thread order of `_contact_match` (reported, not part of the quick scenes).
-MIXED_DIRECTION_SCENES = False
+MIXED_DIRECTION_SCENES = True
 NBIG = 40      # slots of the "report every match" contact sensors (more than any scene below produces)
 ALLDATA = "found force torque dist pos normal tangent"   # 1 + 3 + 3 + 1 + 3 + 3 + 3 = 17 per slot
 
